@@ -30,6 +30,9 @@ def gen(rng, tier, idx):
     wp['m_small'] = rng.choice([0.3, 0.7, 0.9])
     wp['marker_style'] = 'random'
     wp['q_drop'] = rng.choice([0.15, 0.4, 0.6])
+    if rng.random() < 0.12:
+        # real Ensembl ids, version suffixes in the query file, map_to_ensembl=True
+        wp['gene_style'] = 'ensembl'
     W = world.make_world(wp)
     mcfg = common.draw_mapping_cfg(rng, W)
     mcfg['min_markers'] = rng.choice([1, 2, 3, 5, 10])
